@@ -95,7 +95,7 @@ Section PT.
   Proof. destruct l; cbn; try tauto. destruct rows; cbn; tauto. Qed.
   Lemma unbold_leaf_rows l : leaf_has_rows (unbold_leaf l) <-> leaf_has_rows l.
   Proof.
-    unfold unbold_leaf. repeat match goal with |- context [match ?x with _ => _ end] => destruct x end; cbn; tauto.
+    destruct l; cbn [unbold_leaf]; cbn; tauto.
   Qed.
 
   Lemma Forall_tables_erase bs bs' : map blk_erase bs' = map blk_erase bs -> Forall tables_ok bs -> Forall tables_ok bs'.
